@@ -116,6 +116,9 @@ FAULTY = {
     "if_base_or_derived": 'class B; class D : B; def d1 : D; def b1 : B; def u { D bad = «!if(1, b1, d1)»; }',
     "cast_narrower_bits": 'class F<int i> { bits<8> g = «!cast<bits<4> >(i)»; } def f : F<1>;',
     "cast_list_of_other_element": 'def u { list<string> names = «!cast<list<int> >([]<int>)»; }',
+    "named_argument_hides_a_missing_one": 'class C<int a, int b = 0> { int x = a; } def d : «C<b = 1>»;',
+    "named_argument_behind_a_gap": 'class C<int a, int b, int c = 0> { int x = a; int y = b; } def d : «C<1, c = 2>»;',
+    "named_argument_hides_a_missing_one_in_defm": 'multiclass M<int a, int b = 0> { def _x { int v = a; } } defm m : «M<b = 3>»;',
     "bit_range_too_narrow": 'def u { bits<4> b = {1,0,1,0}; bits<2> w = «b{3...0}»; }',
 }
 
